@@ -52,6 +52,8 @@ type ScriptConn struct {
 
 	Writes    [][]byte
 	WriteGate func(b []byte) // called (outside the lock) before a write is recorded
+	// BeforeRead is called at the entry of every Read: the moment the code under test asks the network for more
+	BeforeRead func()
 }
 
 // NewScriptConn returns a conn with a unique remote address.
@@ -83,6 +85,9 @@ func (c *ScriptConn) Pending() bool {
 }
 
 func (c *ScriptConn) Read(b []byte) (int, error) {
+	if f := c.BeforeRead; f != nil {
+		f() // called without the lock: the harness may look at Delivered
+	}
 	c.mu.Lock()
 	defer c.mu.Unlock()
 	c.Reads++
